@@ -505,6 +505,9 @@ func (i *IniParser) parse(ini *ini) error {
 
 	var quotesLookup = make(map[*Option]bool)
 
+	// Options that received a value from this ini file
+	var seen = make(map[*Option]bool)
+
 	for name, section := range ini.Sections {
 		groups := i.matchingGroups(name)
 
@@ -545,8 +548,10 @@ func (i *IniParser) parse(ini *ini) error {
 				continue
 			}
 
-			// ini value is ignored if parsed as default but defaults are prevented
-			if i.ParseAsDefaults && opt.preventDefault {
+			// ini value is ignored if parsed as default but defaults are
+			// prevented by an explicit value given before this file was read
+			// (a repeated key of this file still accumulates)
+			if i.ParseAsDefaults && opt.preventDefault && !seen[opt] {
 				continue
 			}
 
@@ -581,11 +586,13 @@ func (i *IniParser) parse(ini *ini) error {
 
 			var err error
 
-			if i.ParseAsDefaults {
-				err = opt.setDefault(pval)
-			} else {
-				err = opt.Set(pval)
+			err = opt.Set(pval)
+
+			if err == nil && i.ParseAsDefaults {
+				opt.isSetDefault = true
 			}
+
+			seen[opt] = true
 
 			if err != nil {
 				return &IniError{
